@@ -4,6 +4,7 @@ import Walrus.Driver.VisitD
 import Walrus.Driver.BodyD
 import Walrus.Driver.CodeD
 import Walrus.Driver.OffsetsD
+import Walrus.Driver.DwarfD
 
 open Walrus.Driver
 
@@ -15,6 +16,7 @@ def dispatch (line : String) : String :=
   | "builder" :: rest => handleBuilder rest
   | "code" :: rest => handleCode rest
   | "offsets" :: rest => handleOffsets rest
+  | "dwarf" :: rest => handleDwarf rest
   | _ => "bad-request"
 
 partial def loop (h : IO.FS.Stream) (out : IO.FS.Stream) : IO Unit := do
